@@ -24,10 +24,12 @@ const (
 	rmTiny              // ... a sub-0.001-USD asset (1 % instead of 0.1 % in the V0 band) just outside 0.1 %, inside 1 %
 	rmFewStakers        // both, but fewer than 25 records from PEG holders: no SPR winners
 	rmFewMiners         // 24 OPR records (no OPR winners) and a full SPR set
+	rmFewStakersFar     // a full OPR set and 20 holder records that quote one asset three times dearer: none of them is a winner
+	rmFewStakersOnly    // no OPR, 20 holder records: no winners at all, the block stays unrated
 	rmCount
 )
 
-var rmNames = []string{"none", "opr", "spr", "equal", "hi-in", "hi-out", "lo-in", "lo-out", "far", "tiny", "few-stakers", "few-miners"}
+var rmNames = []string{"none", "opr", "spr", "equal", "hi-in", "hi-out", "lo-in", "lo-out", "far", "tiny", "few-stakers", "few-miners", "few-stakers-far", "few-stakers-only"}
 
 // rates: every way a 2.0 block can get (or fail to get) its rates, in each of
 // the three band regimes:
@@ -126,6 +128,18 @@ func buildRates(seed int64) (*Scenario, error) {
 			case rmFewMiners:
 				b.OPR(h, 24, base, nil)
 				b.SPR(h, base, stakers)
+			case rmFewStakersFar, rmFewStakersOnly:
+				if mode == rmFewStakersFar {
+					b.OPR(h, 25, base, nil)
+				}
+				inner := base
+				far := func(i int, name string) uint64 {
+					if name == asset {
+						return inner(i, name) * 3
+					}
+					return inner(i, name)
+				}
+				b.SPR(h, far, append(append([]chain.StakerKey{}, stakers[:20]...), poor...))
 			default:
 				b.OPR(h, 25+rng.Intn(2), oprPrice, nil)
 				b.SPR(h, base, stakers)
